@@ -15,6 +15,48 @@ import (
 
 const LastAppliedAnnotation = "metacontroller.k8s.io/last-applied-configuration"
 
+// Interner shares repeated strings and JSON subtrees of a case file through
+// named definitions: type-checking a 20-character string literal costs Coq
+// far more than a reference to a constant.
+type Interner struct {
+	names   map[string]string
+	pending []string
+	n       int
+}
+
+func NewInterner() *Interner { return &Interner{names: map[string]string{}} }
+
+// Cur is the interner of the case file being written (nil: emit literals).
+var Cur *Interner
+
+func (in *Interner) intern(prefix, text string) string {
+	if name, ok := in.names[text]; ok {
+		return name
+	}
+	in.n++
+	name := fmt.Sprintf("%s%d", prefix, in.n)
+	in.names[text] = name
+	in.pending = append(in.pending, fmt.Sprintf("Definition %s := %s.", name, text))
+	return name
+}
+
+// Flush returns the definitions created since the last call.
+func (in *Interner) Flush() string {
+	out := strings.Join(in.pending, "\n")
+	in.pending = nil
+	if out != "" {
+		out += "\n"
+	}
+	return out
+}
+
+func share(prefix, text string) string {
+	if Cur == nil || len(text) < 12 {
+		return text
+	}
+	return Cur.intern(prefix, text)
+}
+
 // CoqString renders s as a Coq string literal. ok=false when s contains a
 // byte the case files do not carry (non-printable / non-ASCII).
 func CoqString(s string) (string, bool) {
@@ -40,7 +82,7 @@ func MustCoqString(s string) string {
 	if !ok {
 		panic(fmt.Sprintf("unrepresentable string %q", s))
 	}
-	return r
+	return share("s_", r)
 }
 
 func CoqZ(n int64) string {
@@ -78,6 +120,27 @@ func CoqJSON(v interface{}) (string, error) {
 	return b.String(), nil
 }
 
+func sub(v interface{}, lastApplied bool) (string, error) {
+	var b strings.Builder
+	if err := emitJSON0(&b, v, lastApplied); err != nil {
+		return "", err
+	}
+	switch v.(type) {
+	case map[string]interface{}, []interface{}, string:
+		return share("j_", b.String()), nil
+	}
+	return b.String(), nil
+}
+
+func emitJSON(b *strings.Builder, v interface{}, lastApplied bool) error {
+	s, err := sub(v, lastApplied)
+	if err != nil {
+		return err
+	}
+	b.WriteString(s)
+	return nil
+}
+
 func MustCoqJSON(v interface{}) string {
 	s, err := CoqJSON(v)
 	if err != nil {
@@ -86,7 +149,7 @@ func MustCoqJSON(v interface{}) string {
 	return s
 }
 
-func emitJSON(b *strings.Builder, v interface{}, lastApplied bool) error {
+func emitJSON0(b *strings.Builder, v interface{}, lastApplied bool) error {
 	switch t := v.(type) {
 	case nil:
 		b.WriteString("JNull")
@@ -119,7 +182,7 @@ func emitJSON(b *strings.Builder, v interface{}, lastApplied bool) error {
 		if !ok {
 			return fmt.Errorf("unrepresentable string %q", t)
 		}
-		b.WriteString("(JStr " + s + ")")
+		b.WriteString("(JStr " + share("s_", s) + ")")
 	case []interface{}:
 		if t == nil {
 			b.WriteString("JNull")
@@ -154,7 +217,7 @@ func emitJSON(b *strings.Builder, v interface{}, lastApplied bool) error {
 			if !ok {
 				return fmt.Errorf("unrepresentable key %q", k)
 			}
-			b.WriteString("(" + ks + ", ")
+			b.WriteString("(" + share("s_", ks) + ", ")
 			if err := emitJSON(b, t[k], k == LastAppliedAnnotation); err != nil {
 				return err
 			}
